@@ -1,6 +1,7 @@
 import I2N.Lemmas.Trav
 import I2N.Lemmas.TravResults
 import I2N.Lemmas.TravBudget
+import I2N.Lemmas.TravPatient
 import I2N.Model.TravMon
 /-!
 # C03 — No test is executed more often than its retry budget per reuse scope
@@ -592,6 +593,52 @@ set_option maxRecDepth 100000 in
 example : inTestAt sQ2 0 0 .pre = true ∧ inTestAt sQ2 1 1 .pre = false ∧ isOccupied gQ sQ1 1 1 = true ∧
     (sharedFilteredResults gQ sQ2 1 (some 1)).length = 0 ∧ creationsInFlight gQ sQ2 0 .global 1 = [0] ∧
     sQ2.nodes.all (fun d => d.bump == 0) = true := by decide +kernel
+
+/-!
+### Where the threshold grows
+
+`classLimit` in the general bounds is the largest `is_occupied` threshold a copy of the class has had.  It depends on the
+state only through the `bump` counters, and those are written in one place: the back-off branch of the loop (`iter`:
+the worker stands again before an occupied node it bounced off before and `occWait > timeout * max_tries`).  Whether a
+step takes that branch is decided by the stepping worker's back-off record at the beginning of the step
+(`overWaited g s w`, `Lemmas/TravPatient.lean`).
+-/
+
+/-- **classLimit_grows_only_by_backoff.**  A step of a worker that has not waited longer than `timeout * max_tries` at
+an occupied node leaves every bump counter, hence the largest threshold of every class, as it was; in particular it
+preserves `NoBump`.  (Any state, any worker, any outcome, any fuel; no hypothesis on the graph.) -/
+theorem classLimit_grows_only_by_backoff (g : Graph) (s : State) (w : Nat) (out : Outcome) (fuel : Nat)
+    (h : ¬ overWaited g s w) :
+    (∀ i, ((resume g s w out fuel).1.nd i).bump = (s.nd i).bump) ∧
+    (∀ c, classLimit g (resume g s w out fuel).1 c = classLimit g s c) ∧
+    (NoBump s → NoBump (resume g s w out fuel).1) :=
+  ⟨resume_bump_eq g s w out fuel h, resume_classLimit_eq g s w out fuel h, resume_noBump g s w out fuel h⟩
+
+/-- **budget_patient** — the sharp bounds for all runs in which no worker ever waited longer than `timeout * max_tries`
+at occupied nodes (`ReachableP`: every step is taken by a worker with `¬ overWaited`): with `max_concurrent_tries`
+unset or within `max(max_tries, 1)` on every copy, a stateful class without object roots has at most
+`max(max_tries, 1)` counted results per reuse scope, and a class with object roots (`max_tries ≤ 1`) at most one counted
+result or creation in flight. -/
+theorem budget_patient {g : Graph} (hwf : graphWF g = true) {ncls : Nat} {store : List (String × List (String × String))}
+    {s : State} (hr : ReachableP g ncls store s) (c : Nat) (M : Option Int) (sh : Shape) (hm : mctWithin g c M = true)
+    (n : Nat) (hn : n < g.nodes.length) (hnc : (g.node n).cls = c) (v : Nat) (hv : v < g.workers.length) :
+    NoBump s ∧
+    (statefulClass g c M sh = true → ((sharedFilteredResults g s n (some v)).length : Int) ≤ max (M.getD 1) 1) ∧
+    (statefulClassRoots g c M sh = true →
+      (sharedFilteredResults g s n (some v)).length + (creationsInFlight g s c sh v).length ≤ 1) :=
+  ⟨hr.noBump,
+   fun hc => (budget_stateful hwf hr.reachableR c M sh hc n hn hnc v hv).2 hm hr.noBump,
+   fun hc => (budget_stateful_roots hwf hr.reachableR c M sh hc n hn hnc v hv).2 hm hr.noBump⟩
+
+/-- non-vacuity: the run to `sQ2` (net1 creates the root, net2 bounces off) is of this kind -/
+example : ReachableP gQ 2 [] sQ2 :=
+  .step 1 _ 20 (.step 0 _ 20 (.init []) (by decide) (by decide) (not_overWaited_of_nil (by decide)))
+    (by decide) (by decide) (not_overWaited_of_nil (by decide +kernel))
+/-- … and so is the run to `sT3` (two executions of a setup class with `max_tries = 2`, the third worker bounces) -/
+example : ReachableP gT 2 [] sT3 :=
+  .step 2 _ 20 (.step 1 _ 20 (.step 0 _ 20 (.init []) (by decide) (by decide) (not_overWaited_of_nil (by decide)))
+    (by decide) (by decide) (not_overWaited_of_nil (by decide +kernel))) (by decide) (by decide)
+    (not_overWaited_of_nil (by decide +kernel))
 
 /-! Why a copy must be cared for by one worker only (`worker.id in params["name"]` is a substring test: `"net1"` occurs
 in the name of `net11`'s copy).  `net1` picks `net11`'s copy as if it were its own and starts the setup test on it; `net11`
